@@ -77,6 +77,15 @@ def small_case(draw):
          'name': draw(st.sampled_from([None, 'given-name'])),
          'dedup': draw(st.booleans()) if dup else draw(st.sampled_from([False, False, True])),
          'dedup_cs': draw(st.booleans()), 'dedup_fmt': draw(st.sampled_from([None, None, '_%s', ' (%s)']))}
+    if not plain and not dup and 'int' in colkind and draw(st.integers(0, 3)) == 0:
+        # schema-level missing values of the caller's choosing ('n/a' reads as null) on a column declared integer
+        ci = colkind.index('int')
+        for r_ in rows:
+            if draw(st.integers(0, 2)) == 0:
+                r_[ci] = 'n/a'
+        c['mv'] = headers[ci]
+        c['cast'] = 'schema'
+        c['infer'] = None            # (the column's type is the caller's explicit choice)
     if not plain and ncol >= 2 and draw(st.integers(0, 4)) == 0:
         # title lines above the header line, whose position is given explicitly (headers=k+1)
         c['titles'] = draw(st.integers(0, 2))
@@ -185,6 +194,10 @@ def check(case, ctx):
     if c.get('titles') is not None:
         kw['headers'] = nt + 1
         classes.append('explicit-header-line:%d' % (nt + 1))
+    if c.get('mv'):
+        kw['override_schema'] = {'missingValues': ['', 'n/a']}
+        kw['override_fields'] = {c['mv']: {'type': 'integer'}}
+        classes.append('caller-defined-missing-values')
     if c['strip'] is not None:
         kw['strip'] = c['strip']
     if c['limit'] is not None:
